@@ -83,10 +83,13 @@ def gen_history(st):
         # histories stay inside the region where it is exact, so that the C negativize / positivize / max / path routines get exercised
         pen_choice = rng.choice([None, 0.0, 1.0])
         win_choice = None
-    gamma_choice = rng.choice([0.5, 1.0, 1.0, 2.0, 0.05, 10.0])
-    tau_choice = rng.choice([0.0, 0.3, 0.6, 0.9])
-    # (tau exactly ON an affinity value is not generated: whether exp(-gamma*d^2) < tau holds there is decided by the last
-    #  bit of exp(), which differs between math.exp, np.exp and the C library - a rounding-width neighbourhood no oracle can pin)
+    gamma_choice = rng.choice([0.5, 1.0, 1.0, 2.0, 0.05, 10.0, 200.0])
+    tau_choice = rng.choice([0.0, 0.3, 0.6, 0.9, 1.0])
+    # tau exactly ON an affinity value is generated only where no rounding is involved: tau = 1.0 (equal values have affinity
+    # exp(-0) = 1.0 in every libm) and tau = 0.0 with gamma = 200 (value differences >= 2 give exp(-800) = 0.0 everywhere, the
+    # next smaller difference gives exp(-450), far from denormal).  There the strict "<" of the documented rule decides.  Any
+    # other boundary would hinge on the last bit of exp(), which differs between math.exp, np.exp and the C library - a
+    # rounding-width neighbourhood no oracle can pin, so it is not generated.
     setup = {"series1": s1, "series2": s2, "gamma": gamma_choice, "tau": tau_choice,
              "delta": rng.choice([0.0, -0.5, -1.0, -2.0]), "delta_factor": rng.choice([1.0, 0.5, 0.9]),
              "penalty": pen_choice, "window": win_choice,
